@@ -18,6 +18,7 @@ def loop_head(fn, kind="WhileStmt"):
 
 def run(prog, chk):
     policy_objects_table(prog, chk)
+    record_table(prog, chk)
     _run(prog, chk)
     final_result_writers(prog, chk)
 
@@ -345,6 +346,42 @@ def policy_objects_table(prog, chk):
     paths = I.run()
     ok = len(paths) == 1 and not paths[0].undetermined and paths[0].ret == 0 and I.read(paths[0], "P->fallbackPolicy") == Ptr("FB")
     chk.ob("C05.objects", "KSI_Policy_setFallback", ok, "the policy's fallback becomes the given policy", loc=fs.loc(), fn=fs)
+
+
+def record_table(prog, chk):
+    """The two bookkeeping steps of the engine (the rule result after a basic rule, the policy result after a policy) are taken as
+    succeeding by the engine tables.  Here each is evaluated on its own, with every callee succeeding and both answers of the
+    duplicate search: it must report KSI_OK (any other status is handed to the caller of KSI_SignatureVerifier_verify in place of the
+    verdict), and the policy result must be recorded each time, also when an earlier policy stopped at the same rule."""
+    from ksirules.interp import succeed_model
+    chk.rule("C05.record", "recording a rule / policy result succeeds whenever its steps do, whether or not the same rule is already in "
+                           "the list; every policy evaluated leaves one entry in the list of policy results", floor=4)
+    for fname, lst, always in (("PolicyVerificationResult_addLatestRuleResult", "ruleResults", False),
+                               ("PolicyVerificationResult_addLatestPolicyResult", "policyResults", True)):
+        fn = prog.fn(fname, "policy.c")
+        rp = fn.params[0]["n"]
+        # a status nobody reads cannot replace a verdict: it is judged only if some caller uses it
+        from ksirules.status import ignored_results
+        sites = prog.callers().get(fname, [])
+        if not sites:
+            raise AnalysisBroken("%s has no caller" % fname)
+        status_used = any(not [1 for (b, i, e) in ignored_results(g, lambda n: n == fname) if (b, i) == (bid, idx)] for (g, bid, idx, node) in sites)
+        for dup in (0, 1):
+            ov = {"isDuplicateRuleResult": lambda I, p, n, a, dup=dup: dup,
+                  "KSI_RuleVerificationResult_free": lambda I, p, n, a: TOP}
+            I = Interp(fn, inputs={rp: Ptr("R"), "R->ruleResults": Ptr("RULELIST"), "R->policyResults": Ptr("POLICYLIST")},
+                       call_model=succeed_model(prog, ov), on_unknown="stop", prog=prog)
+            paths = I.run()
+            chk.paths += len(paths)
+            inst = "%s[%s]" % (fname, "same rule already listed" if dup else "rule not listed yet")
+            if len(paths) != 1 or paths[0].undetermined:
+                raise AnalysisBroken("%s: evaluation not determined: %s" % (inst, [q.undetermined[:1] for q in paths]))
+            q = paths[0]
+            app = [t[2] for t in q.calls() if t[1] and t[1].endswith("List_append")]
+            want_app = 1 if (always or not dup) else None
+            ok = (q.ret == 0 or not status_used) and (want_app is None or (len(app) == 1 and app[0][0] == Ptr("RULELIST" if lst == "ruleResults" else "POLICYLIST")))
+            chk.ob("C05.record", inst, ok, "expected %s%s; source: status %s, appends %s" %
+                   ("status KSI_OK" if status_used else "(status read by no caller)", " and one entry appended to %s" % lst if want_app else "", q.ret, [a[0] for a in app]), loc=fn.loc(), fn=fn, nontrivial=bool(dup))
 
 
 VERDICT_FIELDS = {"resultCode", "errorCode", "status", "statusExt", "ruleName"}
